@@ -30,3 +30,88 @@ Proof.
   - intros a b. unfold polymod_step, sel, g0, g1, g2, g3, g4. cbv zeta. cbn [nth].
     rewrite !land1_testbit by lia. rewrite !negb_involutive. reflexivity.
 Qed.
+
+(* ---------- convertbits ---------- *)
+Definition cb_to_option (r : cb_res) (pre : list Z) : option (list Z) :=
+  match r with CbOk l => Some (pre ++ l) | _ => None end.
+
+Lemma ones_eq n : Z.shiftl 1 n - 1 = Z.ones n.
+Proof. unfold Z.ones. lia. Qed.
+
+Lemma geb_leb a b : (a >=? b) = (b <=? a).
+Proof. apply Z.geb_leb. Qed.
+
+Lemma fold_none (B C : Type) (g : option C -> B -> option C) (l : list B) :
+  (forall b, g None b = None) -> fold_left g l None = None.
+Proof. intros H. induction l as [|b l IH]; [reflexivity|]. cbn [fold_left]. rewrite H. exact IH. Qed.
+
+(* encoding.convertbits (for tobits >= 1, which every caller uses; Python's None result and the
+   EncodingError are both "no result") *)
+Lemma gen_convertbits_eq data fb tb pad : 0 < tb -> 0 <= fb ->
+  gen_convertbits data fb tb pad = cb_to_option (convertbits data fb tb pad) [].
+Proof.
+  intros Htb Hfb0. unfold gen_convertbits, convertbits. cbv zeta. rewrite !ones_eq.
+  match goal with |- context [fold_left ?f _ _] => set (F := f) end.
+  assert (HFN : forall v, F None v = None) by reflexivity.
+  assert (HF : forall acc bits ret v, 0 <= bits ->
+     F (Some (acc, bits, ret)) v =
+     if (v <? 0) || negb (Z.shiftr v fb =? 0) then None
+     else
+       let acc' := Z.land (Z.lor (Z.shiftl acc fb) v) (Z.ones (fb + tb - 1)) in
+       let bits' := bits + fb in
+       let '(out, bits'') := cb_emit (S (Z.to_nat bits')) acc' bits' tb in
+       Some (acc', bits'', ret ++ out)).
+  { intros acc bits ret v Hb. subst F. cbv beta iota zeta.
+    destruct ((v <? 0) || negb (Z.shiftr v fb =? 0)); [reflexivity|].
+    set (acc' := Z.land (Z.lor (Z.shiftl acc fb) v) (Z.ones (fb + tb - 1))).
+    match goal with |- context [?l (Z.to_nat (bits + fb)) _] => set (LOOP := l) end.
+    assert (HL : forall fuel b r, (Z.to_nat b < fuel)%nat ->
+       LOOP fuel (b, r) = let '(out, b'') := cb_emit fuel acc' b tb in Some (b'', r ++ out)).
+    { induction fuel as [|fuel IH]; intros b r Hf; [lia|].
+      unfold LOOP. cbn [cb_emit]. cbv beta iota zeta. fold LOOP. rewrite geb_leb.
+      destruct (tb <=? b) eqn:E.
+      - apply Z.leb_le in E.
+        rewrite IH by lia.
+        destruct (cb_emit fuel acc' (b - tb) tb) as [out b''].
+        rewrite <- app_assoc. reflexivity.
+      - rewrite app_nil_r. reflexivity. }
+    cbn [cb_emit]. rewrite geb_leb.
+    destruct (tb <=? bits + fb) eqn:E.
+    - apply Z.leb_le in E. rewrite HL by lia.
+      destruct (cb_emit (Z.to_nat (bits + fb)) acc' (bits + fb - tb) tb) as [out b''].
+      rewrite <- app_assoc. reflexivity.
+    - rewrite app_nil_r. reflexivity. }
+  (* generalise over the running state *)
+  assert (Hgen : forall data acc bits ret, 0 <= bits -> 0 <= fb \/ data = [] ->
+    match fold_left F data (Some (acc, bits, ret)) with
+    | Some (acc0, bits0, ret0) =>
+        if pad then
+          if negb (bits0 =? 0) then Some (ret0 ++ [Z.land (Z.shiftl acc0 (tb - bits0)) (Z.ones tb)]) else Some ret0
+        else if (bits0 >=? fb) || negb (Z.land (Z.shiftl acc0 (tb - bits0)) (Z.ones tb) =? 0) then None else Some ret0
+    | None => None
+    end = cb_to_option (cb_loop fb tb pad data acc bits) ret).
+  { clear data. induction data as [|v r IH]; intros acc bits ret Hb Hfb.
+    - cbn [fold_left cb_loop]. rewrite geb_leb. destruct pad.
+      + destruct (bits =? 0); cbn [negb cb_to_option]; [rewrite app_nil_r|]; reflexivity.
+      + destruct ((fb <=? bits) || negb (Z.land (Z.shiftl acc (tb - bits)) (Z.ones tb) =? 0));
+          cbn [cb_to_option]; [|rewrite app_nil_r]; reflexivity.
+    - cbn [fold_left cb_loop]. rewrite HF by exact Hb.
+      destruct ((v <? 0) || negb (Z.shiftr v fb =? 0)); [rewrite fold_none by exact HFN; reflexivity|].
+      cbv zeta.
+      destruct (cb_emit (S (Z.to_nat (bits + fb)))
+                  (Z.land (Z.lor (Z.shiftl acc fb) v) (Z.ones (fb + tb - 1))) (bits + fb) tb) as [out b''] eqn:Ee.
+      assert (Hb'' : 0 <= b'').
+      { destruct Hfb as [Hfb|Hfb]; [|discriminate].
+        assert (Hem : forall fuel a b, 0 <= b -> 0 <= snd (cb_emit fuel a b tb)).
+        { induction fuel as [|fuel IHf]; intros a b Hb0; [exact Hb0|].
+          cbn [cb_emit]. destruct (tb <=? b) eqn:E; [|exact Hb0].
+          apply Z.leb_le in E. specialize (IHf a (b - tb) ltac:(lia)).
+          destruct (cb_emit fuel a (b - tb) tb). exact IHf. }
+        specialize (Hem (S (Z.to_nat (bits + fb))) (Z.land (Z.lor (Z.shiftl acc fb) v) (Z.ones (fb + tb - 1)))
+                        (bits + fb) ltac:(lia)).
+        rewrite Ee in Hem. exact Hem. }
+      assert (Hfb' : 0 <= fb \/ r = []) by (destruct Hfb as [H|H]; [left; exact H|discriminate]).
+      rewrite (IH _ _ _ Hb'' Hfb').
+      destruct (cb_loop fb tb pad r _ b''); cbn [cb_to_option]; [rewrite app_assoc|..]; reflexivity. }
+  apply Hgen; [lia|left; exact Hfb0].
+Qed.
